@@ -477,6 +477,8 @@ const MAX_WAL_RECORD_LEN: u32 = 1024 * 1024; // 1MB
 pub struct Wal {
     path: PathBuf,
     file: Option<File>,
+    /// Offset just past the last complete record, once known (set by the first `append`).
+    end_of_log: Option<u64>,
 }
 
 impl Wal {
@@ -491,6 +493,7 @@ impl Wal {
         Ok(Self {
             path,
             file: Some(file),
+            end_of_log: None,
         })
     }
 
@@ -500,9 +503,9 @@ impl Wal {
     }
 
     pub fn append(&mut self, record: &WalRecord) -> Result<u64> {
-        let Some(file) = self.file.as_mut() else {
+        if self.file.is_none() {
             return Err(Error::WalProtocol("wal file is closed"));
-        };
+        }
         let body = record.encode_body()?;
         let len = u32::try_from(body.len()).map_err(|_| Error::WalRecordTooLarge(u32::MAX))?;
         if len > MAX_WAL_RECORD_LEN {
@@ -510,12 +513,29 @@ impl Wal {
         }
         let crc = crc32(&body);
 
-        let offset = file.metadata()?.len();
-        file.seek(SeekFrom::End(0))?;
+        // New records go right after the last complete record. Whatever follows it (a torn or
+        // garbage tail left by a crash) is ignored by replay, so a record written behind it
+        // would never be read again: cut the tail off instead.
+        let offset = match self.end_of_log {
+            Some(offset) => offset,
+            None => {
+                let mut reader = WalReader::open(&self.path)?;
+                while reader.next_record()?.is_some() {}
+                reader.offset
+            }
+        };
+        let Some(file) = self.file.as_mut() else {
+            return Err(Error::WalProtocol("wal file is closed"));
+        };
+        if file.metadata()?.len() != offset {
+            file.set_len(offset)?;
+        }
+        file.seek(SeekFrom::Start(offset))?;
         file.write_all(&len.to_le_bytes())?;
         file.write_all(&crc.to_le_bytes())?;
         file.write_all(&body)?;
         file.flush()?;
+        self.end_of_log = Some(offset + 4 + 4 + u64::from(len));
         Ok(offset)
     }
 
@@ -530,6 +550,7 @@ impl Wal {
     pub fn rewrite_as_snapshot(&mut self, txid: u64, ops: Vec<WalRecord>) -> Result<()> {
         // Close the current file handle so we can replace it safely.
         let _ = self.file.take();
+        self.end_of_log = None;
 
         let tmp = {
             let pid = std::process::id();
